@@ -59,7 +59,7 @@ def run_transform(case, rec):
     kind = "log" if (k // 3) % 2 else "linear"
     lo = float(10**rng.uniform(1.0, 3.0))
     hi = min(lo*float(10**rng.uniform(0.5, 2.5)), 1.0e5)
-    if k % 9 == 7 and n >= 10:
+    if k % 9 == 8 and n >= 10:
         # the whole quantified range on a log grid, 100-200 points (the calculated q grid is then at its largest)
         kind, n = "log", int(rng.integers(100, 201))
         lo, hi = 10.0, 1.0e5
